@@ -755,3 +755,652 @@ func definiteErrorExit(fn *ssa.Function, ret *ssa.Return) bool {
 	}
 	return true
 }
+
+// ---------------------------------------------------------------------------------------------
+// Rules that guard the repairs of round 4 (F27-F42)
+
+// R10.7 importing meta and snapshot takes a new rollback point (F28)
+func ruleR10_7(w *World, r *Report) {
+	u := w.Client()
+	r.Rule("R10.7", "SetMetaAndSnapshot refreshes the rollback point (ResetTransaction) on every error-free path: a transaction that fails on a restored replica must roll back to the imported state, not to what the instance was before the import", 1)
+	fn := u.Fn(pDatatypes, "SnapshotDatatype", "SetMetaAndSnapshot")
+	if fn == nil {
+		r.Lost("SnapshotDatatype.SetMetaAndSnapshot")
+		return
+	}
+	good, n := true, 0
+	detail := ""
+	forEachOwnInstr(fn, func(in ssa.Instruction) {
+		ret, ok := in.(*ssa.Return)
+		if !ok || definiteErrorExit(fn, ret) {
+			return
+		}
+		n++
+		paths, okp := pathsWithBlocks(fn, nil, ret.Block())
+		if !okp {
+			good, detail = false, "too many paths"
+			return
+		}
+		for _, p := range paths {
+			has := false
+			lits := p.Lits
+			for _, c := range callsIn(fn) {
+				if calleeName(c) == "ResetTransaction" && p.Blocks[c.Block()] {
+					has = true
+				}
+			}
+			// the path on which the datatype does not offer ResetTransaction at all (failed interface assertion) is
+			// accepted only if that assertion is the literal that skips it
+			if !has {
+				for _, l := range lits {
+					if l.Kind == "ok" && !l.Pol {
+						if ta, isTA := l.X.(*ssa.TypeAssert); isTA && strings.Contains(ta.AssertedType.String(), "ResetTransaction") {
+							has = true
+						}
+					}
+				}
+			}
+			if !has {
+				good = false
+				detail = "the exit at " + u.Pos(ret.Pos()) + " is reached under " + litsString(lits) + " without ResetTransaction"
+			}
+		}
+	})
+	r.Check(good && n > 0, "SnapshotDatatype.SetMetaAndSnapshot/new rollback point", u.Pos(fn.Pos()), "ResetTransaction on every error-free path", detail+": the rollback point still describes the instance before the import, and the first failed transaction brings that back (F28)")
+}
+
+// R19.6 a nested transaction runs with the context of the enclosing one (F29)
+func ruleR19_6(w *World, r *Report) {
+	u := w.Client()
+	r.Rule("R19.6", "DoTransaction never hands a nil transaction context to the user function: when BeginTransaction reports a nested call (nil) the function runs with the context of the enclosing transaction", 1)
+	fn := u.Fn(pDatatypes, "TransactionDatatype", "DoTransaction")
+	if fn == nil {
+		r.Lost("TransactionDatatype.DoTransaction")
+		return
+	}
+	var body *ssa.Call
+	for _, c := range callsIn(fn) {
+		if call, ok := c.(*ssa.Call); ok {
+			if _, isParam := stripLoad(call.Call.Value).(*ssa.Parameter); isParam && !call.Call.IsInvoke() {
+				body = call
+			}
+		}
+	}
+	if body == nil || len(body.Call.Args) != 1 {
+		r.Lost("DoTransaction: the call of the user function")
+		return
+	}
+	vals := resolvePhisOwn(body.Call.Args[0])
+	hasOuter, onlyBegin := false, true
+	for _, v := range vals {
+		if p, ok := v.(*ssa.Parameter); ok && p != fn.Params[0] {
+			hasOuter = true
+			onlyBegin = false
+		} else if c, ok := v.(*ssa.Call); !ok || calleeName(c) != "BeginTransaction" {
+			onlyBegin = false
+		}
+	}
+	good := hasOuter
+	if onlyBegin {
+		// acceptable only if the call is guarded by result != nil
+		paths, ok := reachingLitsOwn(fn, nil, body)
+		good = ok && len(paths) > 0
+		for _, p := range paths {
+			g := false
+			for _, l := range p {
+				for _, v := range vals {
+					if isNilCheckOf(l, v, false) {
+						g = true
+					}
+				}
+			}
+			good = good && g
+		}
+	}
+	r.Check(good, "TransactionDatatype.DoTransaction/context of a nested call", u.Pos(body.Pos()), "enclosing context when nested", "the user function receives the result of BeginTransaction, which is nil for a call nested in a running transaction: its operations run with a nil context and the first one locks the mutex the goroutine already holds (Patch/PatchByJSON with several operations inside Transaction deadlocks, F29)")
+}
+
+// R19.7 the paths of a patch are resolved from the document the patch is applied to (F30)
+func ruleR19_7(w *World, r *Report) {
+	u := w.Client()
+	r.Rule("R19.7", "patchEach resolves the path of a patch operation starting at the node of the Document it is called on (PatchByJSON computed the difference against that node's value), not at the root", 1)
+	fn := u.Fn(pOrda, "document", "patchEach")
+	if fn == nil {
+		r.Lost("document.patchEach")
+		return
+	}
+	n := 0
+	for _, c := range callsNamed(fn, "getTargetFromPatch") {
+		n++
+		_, args := recvAndArgs(c)
+		good := false
+		seen := "no start node"
+		if len(args) == 2 {
+			seen = canonName(args[0])
+			good = seen == "$0.snapshot()"
+		}
+		r.Check(good, "document.patchEach/start node", u.Pos(c.Pos()), "starts at its.snapshot()", "the patch path is resolved starting at "+seen+": a patch applied to a child Document changes another part of the tree (F30)")
+	}
+	if n == 0 {
+		r.Lost("patchEach: getTargetFromPatch")
+	}
+	// and the resolver does start where it is told
+	if g := u.Fn(pOrda, "jsonPrimitive", "getTargetByPaths"); g != nil && len(g.Params) >= 3 {
+		usesFrom := false
+		forEachOwnInstr(g, func(in ssa.Instruction) {
+			if phi, ok := in.(*ssa.Phi); ok {
+				for _, e := range phi.Edges {
+					if e == ssa.Value(g.Params[1]) {
+						usesFrom = true
+					}
+				}
+			}
+		})
+		roots := callsNamed(g, "getRoot")
+		r.Check(usesFrom && len(roots) == 0, "jsonPrimitive.getTargetByPaths/walk starts at the given node", u.Pos(g.Pos()), "node := from", "the walk does not start at the node it is given (it consults getRoot or ignores the start node)")
+	} else {
+		r.Lost("jsonPrimitive.getTargetByPaths(from, paths)")
+	}
+}
+
+// R11.6 the server-side replica of an existing datatype is reset before use (F34)
+func ruleR11_6(w *World, r *Report) {
+	u := w.Server()
+	r.Rule("R11.6", "GetLatestDatatype resets the wire state (ResetWired) of the replica it builds on every error-free path, after any import of a stored snapshot: the replica's own creation-time snapshot operation must never be pushed into the log of an existing datatype", 1)
+	fn := u.Fn(pSnapshot, "Manager", "GetLatestDatatype")
+	if fn == nil {
+		r.Lost("snapshot.Manager.GetLatestDatatype")
+		return
+	}
+	resets := callsNamed(fn, "ResetWired")
+	good := len(resets) > 0
+	detail := "ResetWired is never called"
+	forEachInstr(fn, func(in ssa.Instruction) {
+		ret, ok := in.(*ssa.Return)
+		if !ok || ret.Parent() != fn || returnsNonNilLast(ret) {
+			return
+		}
+		dom := false
+		for _, c := range resets {
+			if instrDominates(c.(ssa.Instruction), ret) {
+				dom = true
+			}
+		}
+		if !dom {
+			// the datatype does not exist on the server yet (no DUID): the replica's creation is what will be pushed
+			paths, okp := reachingLitsOwn(fn, nil, ret)
+			fresh := okp && len(paths) > 0
+			for _, p := range paths {
+				g := false
+				for _, l := range p {
+					if l.Kind == "cmp" && l.Op == token.EQL && strings.HasSuffix(canonName(loadSource(l.X)), ".DUID") {
+						if c, isC := l.Y.(*ssa.Const); isC && c.Value != nil && c.Value.Kind() == constant.String && constant.StringVal(c.Value) == "" {
+							g = true
+						}
+					}
+				}
+				fresh = fresh && g
+			}
+			dom = fresh
+		}
+		if !dom {
+			good = false
+			detail = "the error-free exit at " + u.Pos(ret.Pos()) + " is reached on a path without ResetWired (e.g. only when a stored snapshot exists)"
+		}
+	})
+	for _, c := range resets {
+		for _, s := range callsNamed(fn, "SetMetaAndSnapshot") {
+			if reachableFrom(c.(ssa.Instruction), s.(ssa.Instruction)) {
+				good = false
+				detail = "ResetWired runs before SetMetaAndSnapshot, which overwrites the operation id again"
+			}
+		}
+	}
+	r.Check(good, "Manager.GetLatestDatatype/replica reset", u.Pos(fn.Pos()), "ResetWired dominates every error-free exit", detail+": PatchDocument pushes the replica's own empty creation snapshot ahead of the patch operations, and every replay of the log resets the document at that position (F34)")
+}
+
+// R17.11 reserved collection names are refused before the database is touched (F35)
+func ruleR17_11(w *World, r *Report) {
+	u := w.Server()
+	r.Rule("R17.11", "the repository functions that create or purge a collection by a caller-supplied name refuse the names of Orda's internal collections first; the refusal covers every internal collection name", 3)
+	res := u.Fn(pSchema, "", "IsReservedCollectionName")
+	if res == nil {
+		r.Lost("schema.IsReservedCollectionName")
+		return
+	}
+	// the predicate covers all CollectionName* constants
+	want := map[string]bool{}
+	if p := u.Pkgs[pSchema]; p != nil {
+		for _, n := range p.Types.Scope().Names() {
+			if c, ok := p.Types.Scope().Lookup(n).(*types.Const); ok && strings.HasPrefix(n, "CollectionName") && c.Val().Kind() == constant.String {
+				want[constant.StringVal(c.Val())] = true
+			}
+		}
+	}
+	got := map[string]bool{}
+	forEachOwnInstr(res, func(in ssa.Instruction) {
+		if b, ok := in.(*ssa.BinOp); ok && b.Op == token.EQL {
+			for _, v := range []ssa.Value{b.X, b.Y} {
+				if c, isC := v.(*ssa.Const); isC && c.Value != nil && c.Value.Kind() == constant.String {
+					got[constant.StringVal(c.Value)] = true
+				}
+			}
+		}
+	})
+	missing := ""
+	for n := range want {
+		if !got[n] {
+			missing += " " + n
+		}
+	}
+	r.Check(len(want) >= 6 && missing == "", "schema.IsReservedCollectionName/covers every internal collection", u.Pos(res.Pos()), fmt.Sprintf("%d names", len(want)), "the reserved-name test does not cover:"+missing)
+	for _, spec := range [][2]string{{"RepositoryMongo", "PurgeCollection"}, {"", "MakeCollection"}} {
+		fn := u.Fn(pMongo, spec[0], spec[1])
+		cons := spec[1] + "/reserved names refused first"
+		if fn == nil {
+			r.Lost("mongodb." + spec[1])
+			continue
+		}
+		var chk *ssa.Call
+		for _, c := range callsNamed(fn, "IsReservedCollectionName") {
+			chk, _ = c.(*ssa.Call)
+		}
+		if chk == nil {
+			r.Bad(cons, u.Pos(fn.Pos()), "the name is not tested against the internal collection names: resetting or creating a collection called like an internal one drops or shadows the data of every collection (F35)")
+			continue
+		}
+		bad := ""
+		for _, c := range callsIn(fn) {
+			in := c.(ssa.Instruction)
+			if in == ssa.Instruction(chk) || isConstructorOfError(asCallOrNil(c)) || calleeName(c) == "L" {
+				continue
+			}
+			paths, _ := reachingLitsOwn(fn, nil, in)
+			for _, p := range paths {
+				refused := false
+				for _, l := range p {
+					if l.Kind == "call" && l.Call == chk && !l.Pol {
+						refused = true
+					}
+				}
+				if !refused && !instrDominates(in, chk) {
+					// calls on the refusal branch itself (building the error) are fine
+					onRefusal := false
+					for _, l := range p {
+						if l.Kind == "call" && l.Call == chk && l.Pol {
+							onRefusal = true
+						}
+					}
+					if !onRefusal {
+						bad = calleeName(c)
+					}
+				}
+			}
+		}
+		nameArg := false
+		for _, a := range chk.Call.Args {
+			if _, isP := a.(*ssa.Parameter); isP {
+				nameArg = true
+			}
+		}
+		r.Check(bad == "" && nameArg, cons, u.Pos(chk.Pos()), "tested before any other call", "the call "+bad+" is reachable without having passed the reserved-name refusal")
+	}
+}
+
+func asCallOrNil(c ssa.CallInstruction) *ssa.Call {
+	call, _ := c.(*ssa.Call)
+	if call == nil {
+		return &ssa.Call{}
+	}
+	return call
+}
+
+// R03.9 bounds checks do not add two caller-supplied integers (F39)
+func ruleR03_9(w *World, r *Report) {
+	u := w.Client()
+	r.Rule("R03.9", "the range validators compare a caller-supplied count with what is left after the position (count > size-pos); they never add position and count, a sum that wraps around for huge arguments and lets an invalid range through", 3)
+	n := 0
+	for _, fn := range u.ordaFuncs(func(p string) bool { return p == pOrda }) {
+		if !strings.HasPrefix(fn.Name(), "validate") || fn.Signature.Recv() == nil {
+			continue
+		}
+		n++
+		bad := ""
+		forEachOwnInstr(fn, func(in ssa.Instruction) {
+			b, ok := in.(*ssa.BinOp)
+			if !ok {
+				return
+			}
+			switch b.Op {
+			case token.LSS, token.LEQ, token.GTR, token.GEQ:
+			default:
+				return
+			}
+			for _, side := range []ssa.Value{b.X, b.Y} {
+				if s, isS := side.(*ssa.BinOp); isS && (s.Op == token.ADD || s.Op == token.MUL) {
+					_, px := s.X.(*ssa.Parameter)
+					_, py := s.Y.(*ssa.Parameter)
+					if px && py {
+						bad = canonName(side)
+					}
+				}
+			}
+		})
+		r.Check(bad == "", fnName(fn)+"/no overflowing sum", u.Pos(fn.Pos()), "no sum of two parameters in a comparison", "the bounds check compares "+bad+", the sum of two caller-supplied integers: it wraps around for huge arguments, the invalid range is accepted, and the operation panics after it has partly been applied (F39)")
+	}
+	if n < 3 {
+		r.Lost("the validate* functions of the list snapshot")
+	}
+}
+
+// R03.10 an index parsed from a path is range-checked before it selects an element (F37)
+func ruleR03_10(w *World, r *Report) {
+	u := w.Client()
+	r.Rule("R03.10", "in the path walker an array index parsed from a path segment is checked against 0 and the array size before it selects an element, and a path that continues below a scalar is refused", 2)
+	fn := u.Fn(pOrda, "jsonPrimitive", "getTargetByPaths")
+	if fn == nil {
+		r.Lost("jsonPrimitive.getTargetByPaths")
+		return
+	}
+	n := 0
+	for _, c := range callsNamed(fn, "getJSONType") {
+		_, args := recvAndArgs(c)
+		if len(args) != 1 {
+			continue
+		}
+		n++
+		ab := rewriter(`^strconv\.Atoi\(.*\)#0$`, "IDX", `^.*\.size$`, "SIZE")
+		paths, ok := pathLinCmps(fn, c.(ssa.Instruction), ab)
+		good := ok && len(paths) > 0
+		for _, p := range paths {
+			lower, upper := false, false
+			for _, l := range p {
+				switch l {
+				case "-IDX <= 0", "-IDX-1 < 0":
+					lower = true
+				case "+IDX-SIZE < 0", "+IDX-SIZE+1 <= 0":
+					upper = true
+				}
+			}
+			good = good && lower && upper
+		}
+		r.Check(good, "getTargetByPaths/array index in range", u.Pos(c.Pos()), "0 <= index < size on every path", fmt.Sprintf("the parsed index selects an element under %v, without 0 <= index < size: GetByPath with an index outside the array panics (F37)", paths))
+	}
+	if n == 0 {
+		r.Lost("getTargetByPaths: element selection by a parsed index")
+	}
+	// scalar arm refuses
+	refuses := false
+	for _, b := range fn.Blocks {
+		if len(b.Instrs) == 0 {
+			continue
+		}
+		ifi, ok := b.Instrs[len(b.Instrs)-1].(*ssa.If)
+		if !ok {
+			continue
+		}
+		lc, okc := canonLinCmp(normLit(condEdge{ifi.Cond, true}))
+		if !okc || !strings.Contains(lc.String(), "getType()") {
+			continue
+		}
+		// TypeJSONElement is the first constant of the enumeration
+		k := constOfName(u, pOrda, "TypeJSONElement")
+		if lc.String() != fmt.Sprintf("+%s == 0", strings.TrimSuffix(strings.TrimPrefix(lc.L.String(), "+"), fmt.Sprintf("-%d", k))) && !strings.HasSuffix(lc.String(), fmt.Sprintf("-%d == 0", k)) && !(k == 0 && strings.HasSuffix(lc.String(), "getType() == 0")) {
+			continue
+		}
+		ok2, _ := mustReachFromBlock(b.Succs[0], func(in ssa.Instruction) bool {
+			ret, isRet := in.(*ssa.Return)
+			return isRet && returnsNonNilLast(ret)
+		})
+		if ok2 {
+			refuses = true
+		}
+	}
+	r.Check(refuses, "getTargetByPaths/path below a scalar refused", u.Pos(fn.Pos()), "the scalar arm returns an error", "a path that continues below a scalar is not refused: the scalar is returned as if it were the addressed node (F37)")
+}
+
+func constOfName(u *Universe, pkg, name string) int64 {
+	p := u.Pkgs[pkg]
+	if p == nil {
+		return -1
+	}
+	c, ok := p.Types.Scope().Lookup(name).(*types.Const)
+	if !ok {
+		return -1
+	}
+	v, _ := constant.Int64Val(c.Val())
+	return v
+}
+
+// R03.11 a slice with constant offsets is guarded by the length it needs (F41)
+func ruleR03_11(w *World, r *Report) {
+	u := w.Client()
+	r.Rule("R03.11", "getTargetFromPatch cuts the first and the last segment off the split path only after it has made sure there are at least two segments (the empty path, which addresses the whole document, is refused)", 1)
+	fn := u.Fn(pOrda, "jsonPrimitive", "getTargetFromPatch")
+	if fn == nil {
+		r.Lost("jsonPrimitive.getTargetFromPatch")
+		return
+	}
+	n := 0
+	forEachOwnInstr(fn, func(in ssa.Instruction) {
+		sl, ok := in.(*ssa.Slice)
+		if !ok || sl.Low == nil || sl.High == nil {
+			return
+		}
+		lo, isK := constInt(sl.Low)
+		if !isK || lo < 1 {
+			return
+		}
+		n++
+		ab := rewriter(`^len\(strings\.Split\(.*\)\)$`, "LEN")
+		hi := abstractLin(canonLinear(sl.High), ab).String()
+		paths, okp := pathLinCmps(fn, in, ab)
+		good := okp && len(paths) > 0 && hi == "+LEN-1" && lo == 1
+		for _, p := range paths {
+			g := false
+			for _, l := range p {
+				switch l {
+				case "-LEN+2 <= 0", "-LEN+1 < 0":
+					g = true
+				}
+			}
+			good = good && g
+		}
+		r.Check(good, "getTargetFromPatch/segments cut under len >= 2", u.Pos(sl.Pos()), "paths[1:len-1] under len(paths) >= 2", fmt.Sprintf("the split path is sliced [%d:%s] under %v, without len >= 2: a patch operation with the empty path (PatchByJSON with a non-object target) panics (F41)", lo, hi, paths))
+	})
+	if n == 0 {
+		r.Lost("getTargetFromPatch: slicing of the split path")
+	}
+}
+
+// R03.12 no type assertion on, and no Document around, a result that may be nil (F31, F38)
+func ruleR03_12(w *World, r *Report) {
+	u := w.Client()
+	r.Rule("R03.12", "in the client API a non-comma-ok type assertion is never applied to the result of an orda function that can return nil, and toDocument is never given the possibly-nil parent of a node, unless a nil test guards it", 2)
+	var mayReturnNilD func(f *ssa.Function, idx, depth int) bool
+	mayReturnNilD = func(f *ssa.Function, idx, depth int) bool {
+		if f == nil || len(f.Blocks) == 0 || depth > 4 {
+			return false
+		}
+		found := false
+		forEachOwnInstr(f, func(in ssa.Instruction) {
+			ret, ok := in.(*ssa.Return)
+			if !ok || idx >= len(ret.Results) {
+				return
+			}
+			for _, v := range resolvePhisOwn(ret.Results[idx]) {
+				if c, isC := v.(*ssa.Const); isC && c.Value == nil {
+					found = true
+				}
+				// a result handed on from another orda function
+				var call *ssa.Call
+				j := 0
+				switch y := stripIface(v).(type) {
+				case *ssa.Call:
+					call = y
+				case *ssa.Extract:
+					call, _ = y.Tuple.(*ssa.Call)
+					j = y.Index
+				}
+				if call != nil {
+					if g := staticCallee(call); g != nil && g != f && g.Pkg != nil && isOrda(g.Pkg.Pkg.Path()) && mayReturnNilD(g, j, depth+1) {
+						found = true
+					}
+				}
+			}
+		})
+		return found
+	}
+	mayReturnNil := func(f *ssa.Function, idx int) bool { return mayReturnNilD(f, idx, 0) }
+	guarded := func(fn *ssa.Function, in ssa.Instruction, v ssa.Value) bool {
+		paths, ok := reachingLitsOwn(fn, nil, in)
+		if !ok || len(paths) == 0 {
+			return false
+		}
+		for _, p := range paths {
+			g := false
+			for _, l := range p {
+				if isNilCheckOf(l, v, false) {
+					g = true
+				}
+			}
+			if !g {
+				return false
+			}
+		}
+		return true
+	}
+	n := 0
+	for _, fn := range u.ordaFuncs(func(p string) bool { return p == pOrda }) {
+		if flattenable[fn] {
+			continue
+		}
+		forEachOwnInstr(fn, func(in ssa.Instruction) {
+			switch x := in.(type) {
+			case *ssa.TypeAssert:
+				if x.CommaOk {
+					return
+				}
+				src := x.X
+				var call *ssa.Call
+				idx := 0
+				switch y := src.(type) {
+				case *ssa.Call:
+					call = y
+				case *ssa.Extract:
+					call, _ = y.Tuple.(*ssa.Call)
+					idx = y.Index
+				}
+				if call == nil {
+					return
+				}
+				callee := staticCallee(call)
+				if callee == nil || callee.Pkg == nil || !isOrda(callee.Pkg.Pkg.Path()) || !mayReturnNil(callee, idx) {
+					return
+				}
+				n++
+				r.Check(guarded(fn, in, src), fnName(fn)+"/assertion on the result of "+fnName(callee), u.Pos(x.Pos()), "guarded by != nil", "the result of "+fnName(callee)+", which can be nil (a refused call), is type-asserted without a nil test: the assertion panics after the error handler has run (F31)")
+			case *ssa.Call:
+				if calleeName(x) != "toDocument" {
+					return
+				}
+				_, args := recvAndArgs(x)
+				if len(args) != 1 {
+					return
+				}
+				src := stripIface(args[0])
+				c, isCall := src.(*ssa.Call)
+				if !isCall || calleeName(c) != "getParent" {
+					return
+				}
+				n++
+				r.Check(guarded(fn, in, args[0]) || guarded(fn, in, src), fnName(fn)+"/Document around the parent node", u.Pos(x.Pos()), "parent != nil", "a Document is built around getParent() without a nil test: the root has no parent, and the Document around nil panics on its first use (F38)")
+			}
+		})
+	}
+	if n < 1 {
+		r.Lost("sites that wrap a possibly-nil result (GetParentDocument)")
+	}
+}
+
+// ---------------------------------------------------------------------------------------------
+// Findings of round 4 that are recorded, not repaired (F43-F45)
+
+// R13.6 a retried subscription adopts the datatype's DUID (F43)
+func ruleR13_6(w *World, r *Report) {
+	u := w.Server()
+	r.Rule("R13.6", "a Subscribe or SubscribeOrCreate request of a client that is already registered for the key (the retry after a lost response) is not handled under the requester's own, client-chosen DUID: the arm subscribes again (adopting the datatype's DUID) instead of just proceeding", 2)
+	table, pos, _, ok := dispatchTable(u)
+	if !ok {
+		r.Undecided("processSubscribeOrCreate/table", "", "dispatch table not recognised")
+		return
+	}
+	for _, bits := range []string{"S", "S|C"} {
+		k := bits + ",caseAllMatchedSubscribed"
+		got := table[k]
+		r.Check(got == "subscribe", "processSubscribeOrCreate/("+k+") retried subscription", pos[k], got,
+			"outcome is '"+got+"': the retried request goes on as an ordinary push-pull under the requester's own DUID - nothing is pulled, the response carries the wrong DUID, and the subscriber's operations are stored under that DUID while the real datatype's end of log is advanced")
+	}
+}
+
+// R09.9 the error of a member of a received unit is not discarded (F44)
+func ruleR09_9(w *World, r *Report) {
+	u := w.Client()
+	r.Rule("R09.9", "the error of ExecuteRemote is not discarded where received operations are applied: a member of a transaction unit that cannot be executed must be able to fail the unit", 1)
+	fn := u.Fn(pDatatypes, "BaseDatatype", "executeRemoteBase")
+	if fn == nil {
+		r.Lost("BaseDatatype.executeRemoteBase")
+		return
+	}
+	n := 0
+	for _, c := range callsNamed(fn, "ExecuteRemote") {
+		call, ok := c.(*ssa.Call)
+		if !ok {
+			continue
+		}
+		n++
+		ev := errResult(call)
+		used := ev != nil && len(realRefs(ev)) > 0
+		r.Check(used, "BaseDatatype.executeRemoteBase/error of ExecuteRemote", u.Pos(c.Pos()), "the error is consumed", "the error of ExecuteRemote is discarded: an operation of a received transaction unit that cannot be executed is skipped silently and the rest of the unit is applied (neither all nor none)")
+	}
+	if n == 0 {
+		r.Lost("executeRemoteBase: ExecuteRemote")
+	}
+}
+
+// R09.10 the checkpoint moves past a received unit only when the unit is complete (F45)
+func ruleR09_10(w *World, r *Report) {
+	u := w.Client()
+	r.Rule("R09.10", "ApplyPushPullPack advances the checkpoint past the received operations only after their units were found complete (a check that can refuse precedes syncCheckPoint, or the application itself does)", 1)
+	fn := u.Fn(pDatatypes, "WiredDatatype", "ApplyPushPullPack")
+	if fn == nil {
+		r.Lost("WiredDatatype.ApplyPushPullPack")
+		return
+	}
+	var sync ssa.CallInstruction
+	for _, c := range callsNamed(fn, "syncCheckPoint") {
+		sync = c
+	}
+	if sync == nil {
+		r.Lost("ApplyPushPullPack: syncCheckPoint")
+		return
+	}
+	// a call that inspects the received operations and whose error result guards syncCheckPoint
+	good := false
+	for _, c := range callsIn(fn) {
+		call, ok := c.(*ssa.Call)
+		if !ok || call == sync || calleeName(call) == "checkOptionAndError" {
+			continue
+		}
+		takesOps := false
+		for _, a := range call.Call.Args {
+			if strings.HasSuffix(canonName(a), ".Operations") || canonName(a) == "$1" {
+				takesOps = true
+			}
+		}
+		if takesOps && errResult(call) != nil && guardedByNilErr(fn, sync.(ssa.Instruction), call) {
+			good = true
+		}
+	}
+	r.Check(good, "WiredDatatype.ApplyPushPullPack/checkpoint after completeness check", u.Pos(sync.Pos()), "units checked before the checkpoint moves", "the checkpoint is advanced before the received operations are examined: a response that ends inside a transaction unit is refused by ReceiveRemoteModelOperations, but its positions are already consumed, so the rest of the unit arrives with the next pull and is applied alone")
+}
